@@ -14,7 +14,7 @@ h1 = {"name": "h1_alphabet", "src": "h1_alphabet.c", "env": ["ctx", "ctype_model
                    + [inst("l8_nul%d" % p, LEN=8, POS=p, NUL_AT_POS=1) for p in range(8)]}}
 
 h2_dec = [inst("pack_s%d" % n, MODE=1, NSYM=n) for n in [1, 2, 3, 5, 7, 8, 13, 16, 24]]
-h2_enc = [inst("enc_n%d_g%d" % (n, g), MODE=2, NDATA=n, GROUP=g) for (n, g) in [(1, 6), (2, 6), (3, 6), (4, 6), (5, 6), (5, 0), (7, 6), (10, 6), (10, 0)]]
+h2_enc = [inst("enc_n%d_g%d" % (n, g), MODE=2, NDATA=n, GROUP=g) for (n, g) in [(1, 6), (2, 6), (3, 6), (4, 6), (4, 0), (5, 6), (5, 0), (7, 6), (10, 6), (10, 0)]]
 h2 = {"name": "h2_codec", "src": "h2_codec.c", "env": ["ctx", "ctype_model"], "tus": [],
       "unwind": 40, "harness_unwind": 160, "timeout": 300, "mem_gb": 8,
       "functions": ["KSI_base32Encode", "addBits", "readNextBits", "makeMask"],
@@ -28,8 +28,8 @@ h2 = {"name": "h2_codec", "src": "h2_codec.c", "env": ["ctx", "ctype_model"], "t
 h2z = {"name": "h2z_nogroup_pad", "src": "h2_codec.c", "env": ["ctx", "ctype_model"], "tus": [],
        "unwind": 40, "harness_unwind": 160, "timeout": 300, "mem_gb": 8,
        "functions": ["KSI_base32Encode", "readNextBits"],
-       "bound": "KSI_base32Encode with group_len 0 (= no grouping) on 1, 4 and 7 bytes (outputs that need '=' padding)",
-       "instances": [inst("enc_n1_g0", MODE=2, NDATA=1, GROUP=0), inst("enc_n4_g0", MODE=2, NDATA=4, GROUP=0), inst("enc_n7_g0", MODE=2, NDATA=7, GROUP=0)]}
+       "bound": "KSI_base32Encode with group_len 0 (= no grouping) on 1, 3 and 7 bytes (outputs that need two or more '=' pads)", "max_replays": 1,
+       "instances": [inst("enc_n1_g0", MODE=2, NDATA=1, GROUP=0), inst("enc_n3_g0", MODE=2, NDATA=3, GROUP=0), inst("enc_n7_g0", MODE=2, NDATA=7, GROUP=0)]}
 
 h3 = {"name": "h3_crc", "src": "h3_crc.c", "env": [], "tus": [],
       "unwind": 90, "harness_unwind": 100, "timeout": 600, "mem_gb": 8, "solver": "kissat",
@@ -43,8 +43,28 @@ h3 = {"name": "h3_crc", "src": "h3_crc.c", "env": [], "tus": [],
                    + [inst("l4_affine_n%d" % n, LEMMA=4, NBYTES=n) for n in (1, 2, 3)]
                    + [inst("l5_%s_%d" % (k, n), LEMMA=5, NBYTES=n, KIND=kk) for n in (33, 45, 61, 77) for (k, kk) in (("subst", 1), ("swap", 2))]}}
 
+def h4i(label, **d):
+    return inst(label, **d)
+h4_from = [h4i("from_sha1_33", MODE=1, NBIN=33, ALGBYTE="0x00", WIT_ACCEPT=1), h4i("from_sha256_45", MODE=1, NBIN=45, ALGBYTE="0x01", WIT_ACCEPT=1),
+           h4i("from_short_12", MODE=1, NBIN=12, ALGBYTE="0x01"), h4i("from_short_4", MODE=1, NBIN=4), h4i("from_empty", MODE=1, NBIN=0),
+           h4i("from_unknown_03", MODE=1, NBIN=45, ALGBYTE="0x03", WIT_UNKNOWN_ALG=1), h4i("from_unknown_0c", MODE=1, NBIN=45, ALGBYTE="0x0c", WIT_UNKNOWN_ALG=1),
+           h4i("from_unknown_ff", MODE=1, NBIN=33, ALGBYTE="0xff", WIT_UNKNOWN_ALG=1),
+           h4i("from_len44_sha256", MODE=1, NBIN=44, ALGBYTE="0x01", WIT_WRONG_LEN=1), h4i("from_len46_sha256", MODE=1, NBIN=46, ALGBYTE="0x01", WIT_WRONG_LEN=1),
+           h4i("from_len45_sha1", MODE=1, NBIN=45, ALGBYTE="0x00", WIT_WRONG_LEN=1), h4i("from_len13_sha256", MODE=1, NBIN=13, ALGBYTE="0x01", WIT_WRONG_LEN=1)]
+h4_from_t = h4_from + [h4i("from_ripemd_33", MODE=1, NBIN=33, ALGBYTE="0x02", WIT_ACCEPT=1), h4i("from_sha384_61", MODE=1, NBIN=61, ALGBYTE="0x04", WIT_ACCEPT=1),
+                       h4i("from_sha512_77", MODE=1, NBIN=77, ALGBYTE="0x05", WIT_ACCEPT=1), h4i("from_sha3_224_41", MODE=1, NBIN=41, ALGBYTE="0x07", WIT_ACCEPT=1),
+                       h4i("from_sm3_45", MODE=1, NBIN=45, ALGBYTE="0x0b", WIT_ACCEPT=1), h4i("from_unknown_06", MODE=1, NBIN=13, ALGBYTE="0x06", WIT_UNKNOWN_ALG=1),
+                       h4i("from_unknown_7e", MODE=1, NBIN=45, ALGBYTE="0x7e", WIT_UNKNOWN_ALG=1), h4i("from_len76_sha512", MODE=1, NBIN=76, ALGBYTE="0x05", WIT_WRONG_LEN=1)]
+h4_to = [h4i("to_sha1_33", MODE=2, NBIN=33, ALGBYTE="0x00"), h4i("to_sha256_45", MODE=2, NBIN=45, ALGBYTE="0x01")]
+h4_to_t = h4_to + [h4i("to_sha384_61", MODE=2, NBIN=61, ALGBYTE="0x04"), h4i("to_sha512_77", MODE=2, NBIN=77, ALGBYTE="0x05"), h4i("to_ripemd_33", MODE=2, NBIN=33, ALGBYTE="0x02")]
+h4 = {"name": "h4_pubstring", "src": "h4_pubstring.c", "env": ["ctx", "hash_model", "list_wrap", "fmt_stub"], "tus": ["publicationsfile", "hash", "types_base"],
+      "unwind": 10, "harness_unwind": 100, "timeout": 300, "mem_gb": 8, "object_bits": 12,
+      "functions": ["KSI_PublicationData_fromBase32", "KSI_PublicationData_toBase32", "KSI_PublicationData_new", "KSI_PublicationData_free", "KSI_DataHash_fromImprint", "KSI_getHashLength"],
+      "bound": "",
+      "instances": h4_from + h4_to, "thorough": {"instances": h4_from_t + h4_to_t}}
+
 plan = {"property": "C17", "outside": "", "assumptions": [],
         "manifest": {"claimed": True, "level_text": "", "level_note": ""},
-        "harnesses": [h1, h2, h2z, h3]}
+        "harnesses": [h1, h2, h2z, h3, h4]}
 json.dump(plan, open(os.path.join(HERE, "plan.json"), "w"), indent=1)
 print("wrote plan.json")
